@@ -1300,7 +1300,7 @@ IntegralType.binary_operators.idiv = make_integral_binary_op(integral_arith_div_
 end)
 IntegralType.binary_operators.tdiv = make_integral_binary_op(integral_arith_div_op_type, function(a,b,type)
   if bn.isintegral(a) and bn.isintegral(b) then
-    if bn.eq(a, type.min) and bn.eq(b, -1) then
+    if bn.eq(a, type.min) and bn.eq(b, -1) and type.size >= primtypes.int64.size then
       return nil, 'divide overflow'
     end
   else -- mixed operation with float
@@ -1315,7 +1315,7 @@ IntegralType.binary_operators.mod = make_integral_binary_op(integral_arith_div_o
 end)
 IntegralType.binary_operators.tmod = make_integral_binary_op(integral_arith_div_op_type, function(a,b,type)
   if bn.isintegral(a) and bn.isintegral(b) then
-    if bn.eq(a, type.min) and bn.eq(b, -1) then
+    if bn.eq(a, type.min) and bn.eq(b, -1) and type.size >= primtypes.int64.size then
       return nil, 'divide overflow'
     end
   else -- mixed operation with float
